@@ -731,10 +731,18 @@ func (pc *PeerConnection) CreateOffer(options *OfferOptions) (SessionDescription
 
 		// include unmatched local transceivers
 		if !isPlanB { //nolint:nestif
-			// update the greater mid if the remote description provides a greater one
-			if pc.currentRemoteDescription != nil {
+			// update the greater mid if a description in effect provides a greater one: the
+			// mids of a pending description (an offer of ours that is not answered yet, a
+			// remote offer that is not answered yet) are taken as well
+			for _, description := range []*SessionDescription{
+				pc.currentRemoteDescription, pc.pendingRemoteDescription,
+				pc.currentLocalDescription, pc.pendingLocalDescription,
+			} {
+				if description == nil || description.parsed == nil {
+					continue
+				}
 				var numericMid int
-				for _, media := range pc.currentRemoteDescription.parsed.MediaDescriptions {
+				for _, media := range description.parsed.MediaDescriptions {
 					mid := getMidValue(media)
 					if mid == "" {
 						continue
